@@ -254,8 +254,9 @@ fn run_proto(f32_: bool, l8: usize, os: usize, window: u8, fc: f32, seed: u64) -
     let rej = undb(-(REJ_DB[w] - 3.0)).max(single);
     let top = os as f64;
     let mut worst = f64::MIN;
-    // same guard band as the stream check: the edge itself is located by a fitted approximation
-    let edge = edge + 0.25 * delta;
+    // no guard band here: on the exact response of the table the fitted edge is accurate (the stated figures hold
+    // from the edge itself with 2.9 dB to spare over all lengths and windows; 5.9 dB with the 3 dB tolerance), and a
+    // guard band would hide an error of the edge of up to its own width
     if edge < top {
         let mut pts: Vec<f64> = (0..300).map(|i| edge + (top - edge) * (i as f64 / 299.0)).collect();
         for i in 0..300u64 {
